@@ -170,7 +170,67 @@ def d3_slot_read(facts, rep):
                        'victim_pool[...] is read without the arbitration: ' + (wit or wit2), ln=node['ln'], key_extra=str(node['ln']))
         if n == 0:
             raise AnalysisBroken('steal_task: no read of victim_pool[...] found')
-    rep.floor('D3', 2, 'slot reads in get_task and steal_task')
+    d3_taken_slot_excluded(facts, rep)
+    rep.floor('D3', 4, 'slot reads in get_task and steal_task + taken-slot exclusion')
+
+
+def d3_taken_slot_excluded(facts, rep):
+    """A task that get_task / steal_task hands out must not stay inside the index range the function (re)publishes:
+    on every path on which the returned task pointer is known to be non-null, a plain store to head/tail (a roll-back
+    or re-publication of the bounds, as opposed to the arbitration RMW) is preceded by an exclusion of the taken slot --
+    a null store into the pool array (a hole) or an increment of the variable that is then stored to head.
+    Path-sensitive in the returned variable only (product construction)."""
+    from engine.rules import product_walk, var_truth_tracker, returned_vars
+    for fname in (R1 + 'arena_slot::get_task', R1 + 'arena_slot::steal_task'):
+        for fn in facts.get(fname):
+            rv = returned_vars(fn)
+            if len(rv) != 1:
+                raise AnalysisBroken('%s: expected exactly one returned local variable, found %d' % (fname, len(rv)))
+            rvid = next(iter(rv))
+            on_elem, on_edge = var_truth_tracker(fn, rvid)
+            stores = {}
+            head_vals = set()
+            for pos, op in atomic_ops(fn):
+                if op['kind'] == 'store' and last_member(fn, op['obj']) in ('head', 'tail'):
+                    stores[pos] = op
+                    if last_member(fn, op['obj']) == 'head' and op.get('val') is not None:
+                        vn = fn.n(fn.strip(op['val']))
+                        if vn.get('k') == 'var':
+                            head_vals.add(vn['v'])
+            if not stores:
+                raise AnalysisBroken('%s: no plain store to head/tail found' % fname)
+            excl = set()
+            for pos, s, n in fn.stmt_elems(('binop', 'unop')):
+                if n['k'] == 'binop' and n['op'] == '=' and fn.n(fn.strip(n['l'])).get('k') == 'index' and \
+                        (fn.n(fn.strip(n['r'])).get('null') or fn.cv(n['r']) == 0):
+                    excl.add(s)
+                if n['k'] == 'unop' and n['op'] == '++' and fn.n(n['sub']).get('k') == 'var' and fn.n(n['sub'])['v'] in head_vals:
+                    excl.add(s)
+                if n['k'] == 'binop' and n['op'] == '+=' and fn.n(n['l']).get('k') == 'var' and fn.n(n['l'])['v'] in head_vals:
+                    excl.add(s)
+            bad = {}
+
+            def elem_tr(st, pos, e):
+                r, x = st
+                if pos in stores and r == 'T' and not x:
+                    bad.setdefault(pos, st)
+                r2 = on_elem(r, e)
+                if r2 != r and r2 != 'T':
+                    x = False      # a new candidate is being examined: earlier exclusions belong to other slots
+                if isinstance(e, int) and e in excl:
+                    x = True
+                return (r2, x)
+
+            def edge_tr(st, b, si):
+                r = on_edge(st[0], b, si)
+                return None if r is None else (r, st[1])
+            product_walk(fn, ('U', False), elem_tr, edge_tr)
+            for pos, op in sorted(stores.items()):
+                rep.ob('D3', 'K3', fn, 'the slot of a task that is handed out is outside the bounds restored by %s.store at line %s'
+                       % (last_member(fn, op['obj']), op['ln']), pos not in bad,
+                       'a path on which the returned task is non-null reaches this store with the taken slot neither nulled nor skipped '
+                       '(head not moved past it): the task stays in the published range and is popped or stolen a second time',
+                       ln=op['ln'], key_extra=str(op['ln']))
 
 
 def d4_proxy(facts, rep):
